@@ -567,13 +567,30 @@ def add_mul_wallace(
     labels_a = []
     labels_b = []
     shift = 0
+    # a row may have no bit in some column between its first and its last bit
+    # (narrow times wide operands): such a gap must be kept as a zero bit.
+    last = [
+        max((i for i in range(n + m) if c[i][row] != PLACEHOLDER_STR), default=-1)
+        for row in range(2)
+    ]
+    zero = PLACEHOLDER_STR
     for i in range(n + m):
+        gap = c[i][0] == PLACEHOLDER_STR and i < last[0]
+        gap = gap or (c[i][1] == PLACEHOLDER_STR and len(labels_b) > 0 and i < last[1])
+        if gap and zero == PLACEHOLDER_STR:
+            zero = add_gate_from_tt(
+                circuit, input_labels_a[0], input_labels_a[0], '0000'
+            )
         if c[i][0] != PLACEHOLDER_STR:
             labels_a.append(c[i][0])
+        elif i < last[0]:
+            labels_a.append(zero)
         if c[i][1] != PLACEHOLDER_STR:
             labels_b.append(c[i][1])
         elif len(labels_b) == 0:
             shift += 1
+        elif i < last[1]:
+            labels_b.append(zero)
 
     return reverse_if_big_endian(
         add_sum_two_numbers_with_shift(circuit, shift, labels_a, labels_b)[: n + m],
